@@ -71,6 +71,7 @@ def perrStr (total : Nat) : PErr → String
   | .unexpectedEnd => "err unexpected_end -"
   | .andUnsupported r => s!"err and {total - r}"
   | .trailingTokens r => s!"err trailing {total - r}"
+  | .tooDeep r => s!"err too_deep {total - r}"
   | .fuel => "err FUEL -"
 
 def aclErrStr : AclErr → String
